@@ -43,7 +43,8 @@ LEVEL_TEXT = ('Every element, isotope, element ion and isotope ion of the public
               'is compared by identity with the object reached by plain indexing and by field with a key model read '
               'independently from the source; every invalid neighbour of those keys must raise. The domain is finite and '
               'swept completely in both tiers; the sampling that remains is over process histories (two table variants '
-              'in the quick tier, five in the thorough tier) and over the finite list of invalid-neighbour operators.')
+              'in the quick tier, five in the thorough tier) and over the finite list of invalid-neighbour operators.'
+              ' Added in rounds 5-7: identity of kept atoms across a sweep of all 29 412 ions of two tables, refused lookups and refused table creations in between, in-place edits of the list returned by el.isotopes; an unregistered table is reported as a violation.')
 LEVEL_NOTE = ('Trusted: the element_base literal in core.py and the isotope rows of the mass table as the specification of which '
               'atoms exist (re-read by ast / pvmon/ref/masses.py), CPython pickle and copy, icontract.')
 SHARDS = {'quick': 4, 'thorough': 8}
